@@ -1439,6 +1439,12 @@ impl Melda {
     pub fn meld(&self, other: &Melda) -> Result<Vec<String>> {
         let mut result = vec![];
 
+        // Melding a replica into itself has nothing to copy (and would otherwise try to
+        // acquire its own data storage for writing while holding it for reading)
+        if std::ptr::eq(self, other) {
+            return Ok(result);
+        }
+
         let other_data_r = other.data.read().unwrap();
         // We only trust already loaded deltas
         let other_delta_items = other
